@@ -74,7 +74,7 @@ func ZZ_C01_Step() {
 	custody := new(big.Int) // change of the external custody caused by the observed event (ghost rule)
 	failed := false
 	tag := ""
-	switch vrt.Choose("op", 6) {
+	switch vrt.Choose("op", 7) {
 	case 0: // observed deposit to the hub
 		tag = "deposit"
 		amt := vrt.IntRange("ev.amount", big.NewInt(0), zzPow255)
@@ -158,6 +158,28 @@ func ZZ_C01_Step() {
 			d := zzDecimalsOf(k, ctx, chain, t.Token.ExternalTokenId)
 			custody.Sub(custody, new(big.Int).Mul(t.Token.Amount.BigInt(), zzScale(d)))
 		}
+	case 6: // governance cold-storage transfer: vouchers are minted only to be burned again by the outgoing transfer
+		tag = "cold-storage"
+		coins := sdk.Coins{sdk.NewCoin("hub", sdk.NewIntFromBigInt(vrt.IntRange("cold.hub", big.NewInt(1), zzPow255)))}
+		if vrt.Bool("cold.two-coins") {
+			coins = append(coins, sdk.NewCoin("usdt", sdk.NewIntFromBigInt(vrt.IntRange("cold.usdt", big.NewInt(1), zzPow255))))
+		}
+		supplyBefore := []sdk.Int{env.Bank.SupplyOf("hub"), env.Bank.SupplyOf("usdt")}
+		nPool := len(zzPoolOf(k, ctx, chain))
+		var err error
+		if vrt.Panics(func() {
+			err = k.ColdStorageTransfer(ctx, &types.ColdStorageTransferProposal{ChainId: chain.String(), Amount: coins})
+		}) || err != nil {
+			return // a failed proposal handler is rolled back by x/gov
+		}
+		vrt.Reach("c01.cold-storage")
+		// the destination is the bridge owners' own cold wallet: its transfers in flight are custody on the move, not a
+		// liability, so the step rule is stated on the circulating supply alone
+		vrt.Assert("c01.cold-storage.supply-unchanged", env.Bank.SupplyOf("hub").Equal(supplyBefore[0]) && env.Bank.SupplyOf("usdt").Equal(supplyBefore[1]))
+		vrt.Assert("c01.cold-storage.one-transfer-per-coin", len(zzPoolOf(k, ctx, chain)) == nPool+len(coins))
+		vrt.Assert("c01.no-stranded-vouchers."+tag, env.Bank.Balance(zzModuleAddr, "hub").IsZero() && env.Bank.Balance(types.TempAddress, "hub").IsZero() &&
+			env.Bank.Balance(zzModuleAddr, "usdt").IsZero() && env.Bank.Balance(types.TempAddress, "usdt").IsZero())
+		return
 	}
 	if failed {
 		return
